@@ -7,9 +7,9 @@ import subprocess
 import common
 
 KINDS = {
-    'C08': ['lossless'], 'C11': ['quant'], 'C15': ['msgs'], 'C02': ['msgs', 'scan', 'iter', 'new'], 'C09': ['msgs', 'builder'], 'C01': ['msgs', 'text', 'builder', 'lossless'],
-    'C16': ['bias', 'msgs'], 'C10': ['msminvalid', 'msmperm', 'msgs'], 'C07': ['bits'], 'C12': ['builder'], 'C17': ['text'], 'C14': ['classify', 'new'],
-    'C03': ['new'], 'C13': ['new'], 'C04': ['corrupt', 'new', 'scan'], 'C05': ['scan', 'iter', 'new'], 'C06': ['chunks', 'scan', 'new'],
+    'C08': ['lossless', 'biasq'], 'C11': ['quant', 'biasq'], 'C15': ['msgs'], 'C02': ['msgs', 'scan', 'iter', 'new'], 'C09': ['msgs', 'builder'], 'C01': ['msgs', 'text', 'builder', 'lossless'],
+    'C16': ['bias', 'biasq', 'msgs'], 'C10': ['msminvalid', 'msmperm', 'msgs'], 'C07': ['bits'], 'C12': ['builder'], 'C17': ['text'], 'C14': ['classify', 'new'],
+    'C03': ['new'], 'C13': ['new'], 'C04': ['corrupt', 'new', 'scan'], 'C05': ['scan', 'iter', 'new'], 'C06': ['chunks', 'scan', 'new'], 'C18': ['sigcmp'],
 }
 _bin = None
 
